@@ -322,23 +322,7 @@ func checkC16(w *World, r *Report) {
 				acc := s.Args()[len(s.Args())-1]
 				// the very object that was read (type-asserted), not a rebuilt copy: a constructor would reset
 				// every field it is not given (DelegatedVesting, DelegatedFree)
-				v := acc
-				for i := 0; i < 4; i++ {
-					switch x := v.(type) {
-					case *ssa.MakeInterface:
-						v = x.X
-					case *ssa.ChangeInterface:
-						v = x.X
-					case *ssa.Extract:
-						if ta, ok := x.Tuple.(*ssa.TypeAssert); ok && x.Index == 0 {
-							v = ta.X
-						}
-					case *ssa.TypeAssert:
-						v = x.X
-					}
-				}
-				c, isCall := v.(*ssa.Call)
-				same := isCall && strings.HasSuffix(callName(c.Common()), ".GetAccount")
+				same := isObjectReadBy(acc, ".GetAccount")
 				r.Check(same, "C16.accounts", "account upgrade stores the account object it read", w.Pos(s.Instr.Pos()), "SetAccount receives the type-asserted result of GetAccount", "the stored account is rebuilt instead of being the object that was read: fields that are not copied (delegated vesting / delegated free) are lost")
 			}
 		}
@@ -348,4 +332,40 @@ func checkC16(w *World, r *Report) {
 	}
 	// ---------- C16.params ----------
 	checkValidatedParamWrites(w, r, "C16.params", func(f *ssa.Function) bool { return strings.Contains(funcName(f), "/migrations/") })
+}
+
+// isObjectReadBy: v is the very object returned by a call whose name ends in suffix, seen through interface
+// conversions and type assertions only (no constructor, no copy; a phi must agree on every edge).
+func isObjectReadBy(v ssa.Value, suffix string) bool {
+	for i := 0; i < 6; i++ {
+		switch x := v.(type) {
+		case *ssa.MakeInterface:
+			v = x.X
+		case *ssa.ChangeInterface:
+			v = x.X
+		case *ssa.Extract:
+			if ta, ok := x.Tuple.(*ssa.TypeAssert); ok && x.Index == 0 {
+				v = ta.X
+			} else {
+				return false
+			}
+		case *ssa.TypeAssert:
+			v = x.X
+		case *ssa.Phi:
+			if len(x.Edges) == 0 {
+				return false
+			}
+			for _, e := range x.Edges {
+				if !isObjectReadBy(e, suffix) {
+					return false
+				}
+			}
+			return true
+		case *ssa.Call:
+			return strings.HasSuffix(callName(x.Common()), suffix)
+		default:
+			return false
+		}
+	}
+	return false
 }
